@@ -25,7 +25,8 @@ pub enum ReplyFault {
     /// I/O error at a fraction of the head
     IoErr(u16),
     /// a status line (2xx or not) followed by a header section that is not one: 0 a line without a colon, 1 a lone LF where
-    /// the empty line should be (then the connection ends): whatever the status says, no well-formed head was read
+    /// the empty line should be (then the connection ends), 2..4 a status token with a sign or leading zeros in front of the
+    /// three digits: whatever the status says, no well-formed head was read
     BadHead(u8),
 }
 
@@ -81,9 +82,68 @@ pub struct Case {
     /// see c15::SHORT_WRITES: the proxy connection accepts at most that many bytes per write call (0 = all)
     #[serde(default)]
     pub short_write: u8,
+    /// when > 0: the proxy cannot be reached (1 connection refused, 2 timed out, 3 reset): the request fails, and nothing is
+    /// sent anywhere else instead
+    #[serde(default)]
+    pub proxy_down: u8,
 }
 
 pub struct C12;
+
+/// See Case::proxy_down.
+fn check_proxy_down(case: &Case, ctx: &mut Ctx) -> Outcome {
+    ctx.nontrivial = true;
+    ctx.label("proxy-cannot-be-reached");
+    let kind = [std::io::ErrorKind::ConnectionRefused, std::io::ErrorKind::TimedOut, std::io::ErrorKind::ConnectionReset][(case.proxy_down as usize - 1) % 3];
+    let origin = UrlSpec {
+        https: true,
+        host: match &case.origin_host {
+            HostSpec::V6(_) => HostSpec::Domain(vec!["origin".into(), "test".into()]),
+            h => h.clone(),
+        },
+        port: case.origin_port,
+        path: Some(vec!["secret".into()]),
+        query: None,
+        fragment: None,
+        userinfo: None,
+    };
+    let dials = std::sync::Arc::new(std::sync::Mutex::new(Vec::<attohttpc::verif_hooks::Dial>::new()));
+    let d2 = dials.clone();
+    let _guard = install_factory(move |dial| {
+        let mut d = d2.lock().unwrap();
+        d.push(dial.clone());
+        if d.len() == 1 {
+            return Err(std::io::Error::from(kind));
+        }
+        // whoever is dialled next would find a willing peer
+        let reply = b"HTTP/1.1 200 Connection established\r\n\r\n".to_vec();
+        let n = reply.len();
+        let (t, _log) = TunnelPeer::new(vec![Ev::Data(reply)], n, true, "good", b"HTTP/1.1 200 OK\r\nContent-Length: 5\r\n\r\ninner".to_vec());
+        Ok(Box::new(t) as Box<dyn Transport>)
+    });
+    let proxy_url = url::Url::parse(&case.proxy.render()).expect("proxy url");
+    let res = attohttpc::post(origin.render())
+        .proxy_settings(attohttpc::ProxySettings::builder().https_proxy(proxy_url).build())
+        .danger_accept_invalid_certs(true)
+        .header("Authorization", "Bearer MSECRET")
+        .text("MBODY")
+        .send();
+    let dials = dials.lock().unwrap();
+    let p = case.proxy.as_url_spec();
+    if dials.is_empty() || dials[0].host.to_ascii_lowercase() != p.host_text() || dials[0].port != p.effective_port() {
+        return Outcome::fail("C12:dial", format!("first connection went to {:?}, the proxy is {}", dials.first().map(|d| format!("{}:{}", d.host, d.port)), case.proxy.render()));
+    }
+    if dials.len() > 1 {
+        return Outcome::fail(
+            "C12:proxy-unreachable:went-elsewhere",
+            format!("the connection to the proxy failed ({kind:?}); the client then connected to {}:{} (scheme {}, proxy {:?})", dials[1].host, dials[1].port, dials[1].scheme, dials[1].proxy),
+        );
+    }
+    match res {
+        Err(_) => Outcome::Pass,
+        Ok(r) => Outcome::fail("C12:proxy-unreachable:response", format!("the connection to the proxy failed ({kind:?}) but send() returned a {} response", r.status())),
+    }
+}
 
 fn frac(f: u16, n: usize) -> usize {
     ((f as u64 * n as u64) >> 16) as usize
@@ -412,7 +472,7 @@ Oracle P1-P5 over the ordered write/serve log. non-trivial = non-2xx with body >
                 1 => Just(ReplyFault::CutAll),
                 1 => any::<u32>().prop_map(ReplyFault::Garbage),
                 1 => any::<u16>().prop_map(ReplyFault::IoErr),
-                1 => (0u8..2).prop_map(ReplyFault::BadHead),
+                2 => (0u8..5).prop_map(ReplyFault::BadHead),
             ],
         )
             .prop_map(|(status, reason, headers, body, fault)| Reply { status, reason, headers, body, fault, declare: 0 });
@@ -426,20 +486,23 @@ Oracle P1-P5 over the ordered write/serve log. non-trivial = non-2xx with body >
             prop_oneof![3 => Just(Mode::Danger), 2 => (any::<bool>(), any::<bool>()).prop_map(|(present_proxy_cert, ip_origin)| Mode::Verify { present_proxy_cert, ip_origin })],
             0u8..3,
             0u8..4,
-            (prop::bool::weighted(0.25), any::<bool>(), prop::bool::weighted(0.3), crate::props::c15::short_write_strategy()),
+            (prop::bool::weighted(0.25), any::<bool>(), prop::bool::weighted(0.3), crate::props::c15::short_write_strategy(), prop_oneof![30 => Just(0u8), 1 => 1u8..=3]),
         )
-            .prop_map(|(origin_host, origin_port, proxy, mut reply, seg, seed, mode, auth, declare, (via_redirect, session, prior_lax, short_write))| {
+            .prop_map(|(origin_host, origin_port, proxy, mut reply, seg, seed, mode, auth, declare, (via_redirect, session, prior_lax, short_write, proxy_down))| {
                 reply.declare = declare;
                 // a 2xx reply never carries a body here (bytes after the head would be fed to TLS); keep the head intact half of the time
                 if (200..300).contains(&reply.status) {
                     reply.body = ReplyBody::None;
                 }
-                Case { origin_host, origin_port, proxy, reply, seg, seed, mode, auth, via_redirect, session, prior_lax, short_write }
+                Case { origin_host, origin_port, proxy, reply, seg, seed, mode, auth, via_redirect, session, prior_lax, short_write, proxy_down }
             })
             .boxed()
     }
 
     fn check(case: &Case, ctx: &mut Ctx) -> Outcome {
+        if case.proxy_down != 0 {
+            return check_proxy_down(case, ctx);
+        }
         // build the reply
         let mut head = format!("HTTP/1.1 {}", case.reply.status).into_bytes();
         head.extend_from_slice(match case.reply.reason % 4 {
@@ -537,7 +600,15 @@ Oracle P1-P5 over the ordered write/serve log. non-trivial = non-2xx with body >
                 ctx.label("reply:malformed-header-section");
                 let eol = head.windows(2).position(|w| w == b"\r\n").unwrap() + 2;
                 let mut bad = head[..eol].to_vec();
-                match kind % 2 {
+                match kind % 5 {
+                    k @ 2..=4 => {
+                        // the status token is not three digits (a sign, leading zeros): not a status, whatever number it looks like
+                        let sp = bad.iter().position(|b| *b == b' ').unwrap() + 1;
+                        let prefix: &[u8] = [&b"+"[..], &b"0"[..], &b"00"[..]][k as usize - 2];
+                        bad.splice(sp..sp, prefix.iter().copied());
+                        bad.extend_from_slice(&head[eol..]);
+                        ctx.label("reply:status-token-with-sign-or-leading-zeros");
+                    }
                     0 => {
                         bad.extend_from_slice(b"X-No-Colon-In-This-Line\r\n");
                         bad.extend_from_slice(&head[eol..]);
